@@ -112,6 +112,12 @@ func runMarshal(c *core.Case) {
 		c.Count("generator.panic", 1)
 		return
 	}
+	if c.Index%8 == 7 && t.NumField() > 0 { // a bare list, set, map, string, number or pointer at the top level
+		if ft := t.Field(r.Intn(t.NumField())).Type; ft.Kind() != reflect.Interface {
+			t = ft
+		}
+	}
+	root := ttypes.KindOf(t)
 	f := &ttypes.Filler{R: r.Fork(2)}
 	for k := 0; k < 3; k++ {
 		v := f.NewValue(t)
@@ -131,7 +137,7 @@ func runMarshal(c *core.Case) {
 			spec := p.encode(want, tspec.Opts{})
 			w := map[string]any{"type": ttypes.TypeString(t), "value": show(v), "got_hex": fmt.Sprintf("%x", tr(b)), "spec_hex": fmt.Sprintf("%x", tr(spec))}
 			// 1. a strict reader of the specification understands the bytes, with the same content
-			got, used, perr := p.parse(b, tspec.STRUCT)
+			got, used, perr := p.parse(b, root)
 			if perr != nil || used != len(b) || tspec.Canon(got) != tspec.Canon(want) {
 				off, lab := firstDiff(b, spec, tspec.Labels(want, tspec.Opts{}, p.compact))
 				if perr == nil && used == len(b) {
@@ -169,7 +175,7 @@ func runMarshal(c *core.Case) {
 				c.Count("marshal.content-exact", 1)
 			}
 		}
-		c.Distinct(core.Mix(core.HashString(t.String()), core.HashString(tspec.Canon(want))), len(want.Fields) > 0)
+		c.Distinct(core.Mix(core.HashString(t.String()), core.HashString(tspec.Canon(want))), root != tspec.STRUCT || len(want.Fields) > 0)
 		c.Sample(len(want.Fields), map[string]any{"sub": "marshal", "type": ttypes.TypeString(t), "value": show(v)})
 	}
 }
